@@ -34,6 +34,7 @@ type c01reader struct {
 	Tunnel string `json:"tunnel"`
 	Slow   bool   `json:"slow"`
 	Reord  int    `json:"reord"` // UDP: percentage of datagrams swapped with their successor
+	Dup    int    `json:"dup"`   // UDP: percentage of datagrams delivered twice
 }
 
 type c01scn struct {
@@ -132,6 +133,16 @@ func c01gen(rng *rand.Rand, i int) *c01scn {
 		rd.Slow = sc.Mode == "sync" && sc.Queue <= 16 && rng.Intn(3) == 0
 		if rd.Proto == "udp" && rng.Intn(2) == 0 {
 			rd.Reord = 10 + rng.Intn(40)
+		}
+		if rd.Proto == "udp" && rng.Intn(2) == 0 {
+			// many duplicates over a long run (the receiver counts late packets)
+			rd.Dup = 30 + rng.Intn(50)
+			if sc.Burst < 60 {
+				sc.Burst = 60 + rng.Intn(60)
+			}
+			if sc.Rounds < 3 {
+				sc.Rounds = 3
+			}
 		}
 		sc.Readers = append(sc.Readers, rd)
 		if rd.Proto == "udp" {
@@ -259,7 +270,7 @@ func c01run(sc *c01scn, s *vt.Sink) error {
 			}
 		}
 		rd, err := bd.NewReader(bed.ReaderCfg{Proto: rc.Proto, Tunnel: rc.Tunnel, Timeout: 8 * time.Second,
-			Reorder: rc.Reord, Seed: sc.Seed + int64(i)}, "stream", onPkt)
+			Reorder: rc.Reord, Dup: rc.Dup, Seed: sc.Seed + int64(i)}, "stream", onPkt)
 		if err != nil {
 			return fmt.Errorf("c01: reader %d (%+v, tls=%v): %w", i+1, rc, sc.TLS, err)
 		}
